@@ -92,3 +92,7 @@ impl Write for CssBuf {
         Ok(())
     }
 }
+
+#[cfg(kani)]
+#[path = "/verif/kani/cssbuf.rs"]
+mod kani_verif;
